@@ -3,7 +3,7 @@
 import json, os, sys, subprocess
 here = os.path.dirname(os.path.abspath(__file__))
 sys.path.insert(0, here)
-from props import PROPS, NOT_APPLICABLE, TEXT
+from props import PROPS, NOT_APPLICABLE, TEXT, UNCLAIMED
 verif = os.path.dirname(here)
 commits = subprocess.run(["git", "-C", "/repo", "log", "--format=%H %s"], stdout=subprocess.PIPE, text=True).stdout.splitlines()
 hooks = [c.split()[0] for c in commits if c.split(" ", 1)[1].startswith("verif hook")]
@@ -38,8 +38,8 @@ m = {
         {"name": "instrument", "path": "/verif/tools/instrument", "kind_free_text": "go/ast rewriter applied to a scratch copy of /repo at check time: sync/time/crypto-rand imports -> drop-ins, yields between the system calls of lock acquisition/release", "serves_properties": sorted(PROPS)},
     ],
     "checks": checks,
-    "not_applicable": NOT_APPLICABLE,
-    "notes": "All checks rebuild an instrumented scratch copy of /repo's working tree (mktemp, removed on exit) with go1.26.8 and GOFLAGS=-mod=mod GOPROXY=off. VERIF_SEED selects the seed (default 1), VERIF_WORKERS the number of worker processes (default 16). Exit 2 = infrastructure trouble (never a VIOLATION line). Known findings: /verif/known_findings.json.",
+    "not_applicable": NOT_APPLICABLE + [{"property_id": k, "reason": v} for k, v in sorted(UNCLAIMED.items())],
+    "notes": "All checks rebuild an instrumented scratch copy of /repo's working tree (mktemp, removed on exit) with go1.26.8 and GOFLAGS=-mod=mod GOPROXY=off. VERIF_SEED selects the seed (default 1), VERIF_WORKERS the number of worker processes (default 16). Exit 2 = infrastructure trouble (never a VIOLATION line). Known findings and repaired defects: /verif/known_findings.json (witness files under /verif/findings are re-executed by every run of their check). The entries under not_applicable are properties without a registered check; their reasons say so - none of them is outside the reach of the technique. lib/trymut.sh <patch> <Cxx> runs a check against a deliberately broken scratch worktree (patches under /verif/seeded).",
 }
 json.dump(m, open(os.path.join(verif, "MANIFEST.json"), "w"), indent=1)
 print("MANIFEST.json written:", len(checks), "checks,", len(NOT_APPLICABLE), "not applicable")
